@@ -9,6 +9,8 @@ const TEXTS = {
   importSource: { t: '@jsxImportSource vue', factory: null }, runtime: { t: '@jsxRuntime automatic', factory: null }, frag: { t: '@jsxFrag FF', factory: null },
   unrelated: { t: 'just a comment about jsx', factory: null }, prose: { t: 'we do not set the @jsx pragma here', factory: null }, license: { t: '@license MIT', factory: null },
   other: { t: '@jsx gg', factory: 'gg' },
+  // identifiers that are not plain ASCII letters
+  unicode: { t: '@jsx cr\u00e9er', factory: 'cr\u00e9er' }, dollar: { t: '@jsx $h_2', factory: '$h_2' }, cjk: { t: '@jsx \u521b\u5efa rest', factory: '\u521b\u5efa' },
   tab: { t: '@jsx\thh', factory: 'hh' }, twoSpaces: { t: '@jsx   hh  ', factory: 'hh' }, tabWords: { t: '@jsx\thh\tand words', factory: 'hh' }, glued: { t: '@jsxhh', factory: null },
 };
 const STYLES = {
@@ -59,13 +61,14 @@ function render(c) {
   return (PLACEMENTS[c.place].hashbang ? '#!/usr/bin/env node\n' : '') + (c.place === 'head' || c.place === 'headAfterHashbang' ? parts.slice(0, 1).concat([PRELUDE], early, parts.slice(1)) : [PRELUDE].concat(early, parts)).join('\n') + '\n';
 }
 
+const optName = (c) => (c.opt === 'u' ? 'fabriqu\u00e9' : 'pp');
 function requests(c) {
-  return [{ src: render(c), want: ['eval'], entry: c.entry, opts: c.opt ? JSON.stringify({ pragma: 'pp', optimize: c.optimize }) : (c.optimize ? JSON.stringify({ optimize: true }) : (c.entry === 'plugin' ? undefined : '{}')) }];
+  return [{ src: render(c), want: ['eval'], entry: c.entry, opts: c.opt ? JSON.stringify({ pragma: optName(c), optimize: c.optimize }) : (c.optimize ? JSON.stringify({ optimize: true }) : (c.entry === 'plugin' ? undefined : '{}')) }];
 }
 
 function expectedFactory(c) {
   if (c.text !== 'none' && PLACEMENTS[c.place].leading && TEXTS[c.text].factory) return TEXTS[c.text].factory; // the annotation takes precedence over the option
-  return c.opt ? 'pp' : 'createVNode';
+  return c.opt ? optName(c) : 'createVNode';
 }
 
 function judge(c, resps) {
@@ -75,10 +78,10 @@ function judge(c, resps) {
   if (r.panic || r.died) return { viol: [{ clause: 'transform-failed', diff: r.panic ? 'panic' : 'process-died', msg: r.panic ? `panic in ${r.panic.stage}: ${r.panic.msg}` : 'the transform killed its process' }], obs: 'transform-failed' };
   if (r.hang || !r.eval_js) return { skip: true };
   const viol = [];
-  const counts = { hh: 0, gg: 0, pp: 0, FF: 0, local: 0 };
+  const counts = { hh: 0, gg: 0, pp: 0, FF: 0, local: 0, 'cr\u00e9er': 0, $h_2: 0, '\u521b\u5efa': 0, 'fabriqu\u00e9': 0 };
   const stub = (name) => function (type, props, children) { counts[name]++; return { __v_isVNode: true, type, props: props || null, children: children === undefined ? null : children }; };
   const localStub = stub('local');
-  const env = { local: localStub, modules: { lib: { hh: localStub } }, bound: { x: 'x', y: 'y', Comp: { __c: 'Comp' } }, globals: { hh: stub('hh'), gg: stub('gg'), pp: stub('pp'), FF: stub('FF') } };
+  const env = { local: localStub, modules: { lib: { hh: localStub } }, bound: { x: 'x', y: 'y', Comp: { __c: 'Comp' } }, globals: Object.fromEntries(Object.keys(counts).filter((k) => k !== 'local').map((k) => [k, stub(k)])) };
   let created = 0;
   withModule(r.eval_js, env, (out, rec, loadError) => {
     if (loadError) { viol.push({ clause: 'load', diff: 'exception:' + loadError.name, msg: errStr(loadError) }); return; }
@@ -104,7 +107,8 @@ function judge(c, resps) {
 }
 
 function* cases(tier) {
-  for (const entry of ['visitor', 'plugin']) for (const opt of [false, true]) for (const shape of Object.keys(SHAPES)) {
+  for (const entry of ['visitor', 'plugin']) for (const opt of [false, true, 'u']) for (const shape of Object.keys(SHAPES)) {
+    if (opt === 'u' && !['one', 'two', 'dirs'].includes(shape)) continue; // the non-ASCII option name on a subset of the shapes
     for (const optimize of [false, true]) yield { entry, opt, shape, text: 'none', optimize };
     for (const text of Object.keys(TEXTS)) for (const style of Object.keys(STYLES)) for (const place of Object.keys(PLACEMENTS)) {
       for (const extra of ['none', 'later', 'earlier']) if (!(extra === 'later' && place === 'trailing')) for (const optimize of [false, true]) yield { entry, opt, shape, text, style, place, optimize, extra };
@@ -130,8 +134,8 @@ module.exports = {
   level: 'model_checking',
   rule: 'complete product comment style (block, JSDoc one-line / multi-line, line, tight) × placement (file head, before the 2nd / last top-level statement, after an import, inside a function body, trailing) × annotation text (@jsx name, name followed by more words, bare @jsx, @jsxImportSource / @jsxRuntime / @jsxFrag, prose, another name) × pragma option present/absent × module shape (one element; element + fragment in two statements; nested elements and fragments; component with slot) × entry (visitor, real plugin entry); each state is transformed by the real code and executed with recording stubs for every candidate factory: all element and fragment calls must land in exactly the expected factory (annotation at the head of the file or before a top-level statement wins over the option, everything else leaves createVNode), createVNode imported exactly once or not at all accordingly. Distinct = distinct call-count vectors.',
   assumptions: ['mock Vue runtime + global recording stubs', 'node evaluator', 'comments delivered to the plugin entry as SingleThreadedComments'],
-  spaces: (tier) => [{ name: 'O:pragma', bounds: { styles: Object.keys(STYLES), placements: Object.keys(PLACEMENTS), texts: Object.keys(TEXTS), shapes: Object.keys(SHAPES), option: ['absent', '"pp"'], entries: ['visitor', 'plugin'] }, *gen() { yield* cases(tier); } }],
+  spaces: (tier) => [{ name: 'O:pragma', bounds: { styles: Object.keys(STYLES), placements: Object.keys(PLACEMENTS), texts: Object.keys(TEXTS), shapes: Object.keys(SHAPES), option: ['absent', '"pp"', '"fabriqu\u00e9" (on a subset of the shapes)'], entries: ['visitor', 'plugin'] }, *gen() { yield* cases(tier); } }],
   requests, judge, shrink,
-  caseKey: (c) => `${c.entry}:${c.opt ? 'pragma=pp ' : ''}${c.optimize ? 'optimize ' : ''}${c.shape}:${c.text === 'none' ? 'no comment' : c.place + ':' + JSON.stringify(STYLES[c.style](TEXTS[c.text].t)) + (c.extra && c.extra !== 'none' ? '+ordinary-comment-' + c.extra : '')}`,
+  caseKey: (c) => `${c.entry}:${c.opt ? 'pragma=' + optName(c) + ' ' : ''}${c.optimize ? 'optimize ' : ''}${c.shape}:${c.text === 'none' ? 'no comment' : c.place + ':' + JSON.stringify(STYLES[c.style](TEXTS[c.text].t)) + (c.extra && c.extra !== 'none' ? '+ordinary-comment-' + c.extra : '')}`,
   depth: (c) => (c.text === 'none' ? 0 : 1) + (c.opt ? 1 : 0),
 };
